@@ -228,6 +228,14 @@ def patch_equivalences(chk, root):
          ['T insert 0 f u16', 'T insert 2 m u32', 'T insert 99 e u64'], 'struct T { u16 f; u32 n; u32 m; u8 a; u64 e; };'),
         ('dynamic then static', head + '<member name="x" type="u16"><dimension size="2"/></member></struct></x>',
          ['T dynamic x n', 'T static x 5'], 'struct T { u32 n; u16 x[5]; };'),
+        ('greedy then static (the greedy flag must go: fixed by 45cc3f0)', head + '<member name="x" type="u16"><dimension size="2"/></member></struct></x>',
+         ['T greedy x', 'T static x 3'], 'struct T { u32 n; u16 x[3]; };'),
+        ('greedy then dynamic', head + '<member name="x" type="u16"><dimension size="2"/></member></struct></x>',
+         ['T greedy x', 'T dynamic x n'], 'struct T { u32 n; u16 x<@n>; };'),
+        ('size and size2 expressions (parenthesised product: fixed by 2757209)',
+         '<x><constant name="K" value="3"/><struct name="T"><member name="n" type="u32"/><member name="x" type="u8"><dimension size="K+1" size2="2"/></member>'
+         '<member name="y" type="u8"><dimension size="2" size2="K+1"/></member></struct></x>',
+         [], 'const K = 3;\nstruct T { u32 n; u8 x[8]; u8 y[8]; };'),
     ]
     for i, (note, xml, lines, text) in enumerate(cases):
         d = os.path.join(root, 'pe%d' % i)
@@ -248,7 +256,7 @@ def patch_equivalences(chk, root):
 
         def members(nodes):
             node = next(n for n in nodes if getattr(n, 'name', None) == 'T')
-            return [(m.name, m.type_name, m.bound, None if m.size is None else str(m.size), bool(m.greedy), bool(m.optional)) for m in node.members]
+            return [(m.name, m.type_name, m.bound, None if m.size is None else str(m.numeric_size), bool(m.greedy), bool(m.optional)) for m in node.members]
         if members(pn) != members(xn) or node_layout(pn, 'T') != node_layout(xn, 'T'):
             chk.property_violation(casej, {'what': 'isar + patch and the equivalent prophy text give different models',
                                            'isar_patch': members(xn), 'prophy': members(pn), 'layouts': [node_layout(xn, 'T'), node_layout(pn, 'T')]})
